@@ -36,6 +36,9 @@ pub struct Script {
     pub attempts: Vec<(usize, usize, i64)>,
     pub iovs: Vec<usize>,
     drained: bool,
+    /// waits for writability of the socket under test that are still to come back "timed out, not writable"
+    poll_timeouts: u32,
+    pub polls: u32,
 }
 
 pub static SCRIPT: Mutex<Option<Script>> = Mutex::new(None);
@@ -117,6 +120,33 @@ pub unsafe extern "C" fn sendmsg(fd: c_int, msg: *const libc::msghdr, flags: c_i
     ret
 }
 
+/// A sender that, refused by a full socket buffer, waits for writability: the first waits on the socket under test come back
+/// as "timed out" without sleeping (a reader that stays away longer than any bound the sender may have chosen) -- the message
+/// must still go out whole or not at all.  Everything else is forwarded to the kernel.
+/// # Safety
+/// Same contract as poll(2).
+#[no_mangle]
+pub unsafe extern "C" fn poll(fds: *mut libc::pollfd, nfds: libc::nfds_t, timeout: c_int) -> c_int {
+    if !fds.is_null() && nfds > 0 {
+        if let Ok(mut g) = SCRIPT.try_lock() {
+            if let Some(s) = g.as_mut() {
+                let pf = std::slice::from_raw_parts_mut(fds, nfds as usize);
+                if s.send_ino != 0 && s.poll_timeouts > 0 && pf.iter().any(|p| p.fd >= 0 && p.events & libc::POLLOUT != 0 && ino_of(p.fd) == s.send_ino) {
+                    s.poll_timeouts -= 1;
+                    s.polls += 1;
+                    for p in pf.iter_mut() {
+                        p.revents = 0;
+                    }
+                    return 0;
+                }
+            }
+        }
+    }
+    let ts = libc::timespec { tv_sec: (timeout / 1000) as _, tv_nsec: ((timeout % 1000) as i64 * 1_000_000) as _ };
+    let tsp: *const libc::timespec = if timeout < 0 { std::ptr::null() } else { &ts };
+    libc::syscall(libc::SYS_ppoll, fds, nfds, tsp, std::ptr::null::<libc::sigset_t>(), 8usize) as c_int
+}
+
 /// Transient receive conditions: the next receive attempts on the socket with inode `ino` fail with the given errno values
 /// (EAGAIN: a receive timeout expired / non-blocking socket; EINTR: a signal) before anything was transferred.
 pub struct RecvScript {
@@ -193,6 +223,8 @@ fn arm(send: &UnixStream, drain: &UnixStream, script: &[u64], eintr: bool) {
         attempts: Vec::new(),
         iovs: Vec::new(),
         drained: false,
+        poll_timeouts: 2,
+        polls: 0,
     });
 }
 
@@ -207,6 +239,8 @@ pub fn arm_send_only(send: &UnixStream, script: &[u64], eintr: bool) {
         attempts: Vec::new(),
         iovs: Vec::new(),
         drained: false,
+        poll_timeouts: 2,
+        polls: 0,
     });
 }
 pub fn disarm_quiet() {
